@@ -6,6 +6,7 @@ recorded as EnvOpaque traces (spec/trace/Trace_EnvOpaque.tla).  Shared by
 from __future__ import annotations
 
 import copy
+import os
 import math
 
 import numpy as np
@@ -37,9 +38,8 @@ def classic_envs(ctx: Ctx) -> list:
 
 def mujoco_envs(ctx: Ctx) -> list:
     from lerax.env import mujoco as mj
-    names = ["InvertedPendulum", "Hopper"] if not ctx.thorough else \
-        ["Ant", "HalfCheetah", "Hopper", "Humanoid", "HumanoidStandup", "InvertedDoublePendulum", "InvertedPendulum", "Pusher",
-         "Reacher", "Swimmer", "Walker2d"]
+    names = ["Ant", "HalfCheetah", "Hopper", "Humanoid", "HumanoidStandup", "InvertedDoublePendulum", "InvertedPendulum", "Pusher",
+             "Reacher", "Swimmer", "Walker2d"]
     out = []
     for n in names:
         out.append((n, {}, lambda n=n: getattr(mj, n)()))
@@ -271,9 +271,10 @@ def gen_cases(ctx: Ctx, family: str, modes_every: int = 0) -> list:
         env0 = mk()
         stacks = stacks_for(env0, ctx, rng)
         if family == "mujoco" and not ctx.thorough:
-            stacks = [[], [("TimeLimit", 3)]]          # MJX steps compile in 15-25 s per (class, stack)
+            stacks = [[("TimeLimit", 3)]]              # MJX steps compile in 15-25 s per (class, stack): one stack, all eleven classes
         for stack in stacks:
-            for mode in (["sample", "low", "alternate"] if not ctx.thorough else ["sample", "sample", "low", "high", "alternate", "hold"]):
+            for mode in ((["sample", "alternate"] if family == "mujoco" else ["sample", "low", "alternate"]) if not ctx.thorough
+                         else ["sample", "sample", "low", "high", "alternate", "hold"]):
                 steps = ctx.pick(24, 96) if family == "classic" else ctx.pick(6, 24)
                 cases.append(dict(family=family, env=name, kw=kw, stack=stack, mode=mode, steps=steps, seed=rng.randrange(2 ** 31),
                                   modes_every=modes_every))
@@ -297,6 +298,48 @@ def record_case(ctx, case) -> dict:
                           case.get("modes_every", 0))
 
 
+def record_cases(ctx: Ctx, cases: list) -> list:
+    """classic-control cases in this process; MuJoCo cases in one subprocess per environment class (one XLA compilation of an
+    MJX step takes 15-25 s, the classes are independent)"""
+    import json
+    import subprocess
+    import sys
+    from concurrent.futures import ThreadPoolExecutor
+    from pathlib import Path
+    out = [None] * len(cases)
+    groups = {}
+    for i, c in enumerate(cases):
+        if c["family"] == "mujoco":
+            groups.setdefault(c["env"], []).append(i)
+        else:
+            out[i] = record_case(ctx, c)
+    if not groups:
+        return out
+    env = dict(os.environ)
+    env.setdefault("JAX_PLATFORMS", "cpu")
+
+    def one(item):
+        name, idx = item
+        fin, fout = ctx.work / f"mjcases_{name}.json", ctx.work / f"mjtraces_{name}.json"
+        fin.write_text(json.dumps([cases[i] for i in idx]))
+        p = subprocess.run([sys.executable, "-m", "lvf.props.builtin_env", ctx.tier, str(ctx.seed), str(fin), str(fout)],
+                           capture_output=True, text=True, env=env, cwd=str(Path(__file__).resolve().parents[2]), timeout=3000)
+        if p.returncode != 0 or not fout.exists():
+            return name, idx, None, (p.stderr or p.stdout)[-3000:]
+        return name, idx, json.loads(fout.read_text()), None
+    with ThreadPoolExecutor(max_workers=ctx.pick(6, 8)) as ex:
+        for name, idx, trs, err in ex.map(one, sorted(groups.items())):
+            if err is not None:
+                if "RAISED-INSIDE-LERAX" in err:
+                    line = next(l for l in err.splitlines() if "RAISED-INSIDE-LERAX" in l)
+                    Violation(f"{ctx.pid}:{name}:raises", line, "exception", {"env": name})       # registered in core.ALL_VIOLATIONS
+                    raise Machinery(f"recording {name}: {line}")
+                raise Machinery(f"recording MuJoCo rollouts of {name} failed: {err[-1500:]}")
+            for i, t in zip(idx, trs):
+                out[i] = t
+    return out
+
+
 def run_traces(ctx: Ctx, pid: str, only, families=("classic",), modes_every: int = 0) -> Report:
     rep = Report()
     res = tlc.run("mc/MC_EnvOpaque.tla", workdir=ctx.work, workers=4, timeout=600)
@@ -305,7 +348,7 @@ def run_traces(ctx: Ctx, pid: str, only, families=("classic",), modes_every: int
     cases = []
     for fam in families:
         cases += gen_cases(ctx, fam, modes_every)
-    traces = [record_case(ctx, c) for c in cases]
+    traces = record_cases(ctx, cases)
     v = tracecheck.validate(ctx, SPEC, traces, f"opaque_{pid}", procs=ctx.pick(2, 8))
     rep.states += v.distinct
     rep.transitions += v.generated
@@ -447,3 +490,22 @@ def extremal_search(name: str, env, horizon: int, pop: int, gens: int, seed: int
         "SigObservationInDeclaredSpace": bool(in_space), "SigObservationDtypeAndShape": bool(typed), "SigRewardIsFiniteFloatScalar": bool(finite_rew)})],
         "meta": {"env": name, "stack": [], "mode": "extremal_search", "observations_checked": int(n_obs), "generations": gens,
                  "extremes_reached": [[float(x) for x in extremes[0]], [float(x) for x in extremes[1]]]}}
+
+
+if __name__ == "__main__":
+    import json
+    import sys
+    os.environ.setdefault("JAX_PLATFORMS", "cpu")
+    tier, seed, fin, fout = sys.argv[1], int(sys.argv[2]), sys.argv[3], sys.argv[4]
+    wctx = Ctx("W" + str(os.getpid()), tier, seed)
+    try:
+        trs = [record_case(wctx, c) for c in json.loads(open(fin).read())]
+        open(fout, "w").write(json.dumps(trs, default=lambda o: o.item() if hasattr(o, "item") else repr(o)))
+    except Exception as ex:
+        from ..check import _raised_inside_lerax
+        v = _raised_inside_lerax("C02", ex)
+        if v is not None:
+            print("RAISED-INSIDE-LERAX " + v.what, file=sys.stderr)
+        raise
+    finally:
+        wctx.cleanup()
